@@ -46,7 +46,7 @@ package mux
 //@ func Q.Close
 //@   requires !held(a.lock) && a.reqList != nil
 //@   ensures #closed a.closed && same(a.reqList)
-//@   modifies region($chanclosed), Q.closed, a.reqList.lmem, a.reqList.lcnt, list.Element.lrk, list.Element.Value
+//@   modifies a.closed, a.reqList.lmem, a.reqList.lcnt, list.Element.lrk, list.Element.Value
 //
 //@ func Q.Pop
 //@   requires !held(a.lock) && a.reqList != nil && errsOK()
